@@ -67,6 +67,16 @@ let rec show e = match e with
       String.concat " " (["M"; iz id; string_of_int (List.length ps)] @ List.map iz ps @ [(if rest then "1" else "0"); string_of_int (List.length sv)]
                          @ List.map iz sv @ [show body])
 
+(* closure-free data of Sem3: a list is written with parentheses, "." before a non-nil tail, a vector as #( ... ) *)
+let rec show_dat d = match d with
+  | DC c -> string_of_const c
+  | DV e -> "#( " ^ show_elems e ^ ")"
+  | DP (_, _) -> "( " ^ show_elems d ^ ")"
+and show_elems d = match d with
+  | DC (COther t) when int_of_z t = 0 -> ""
+  | DP (a, r) -> show_dat a ^ " " ^ show_elems r
+  | x -> ". " ^ show_dat x ^ " "
+
 (* the dynamic state of the compiling program: "-" = nothing installed, "<h>:<p>" = handler h and a parameter bound to p *)
 let dyn_of s = if s = "-" then dyn0 else
   match String.split_on_char ':' s with
@@ -84,6 +94,29 @@ let handle = function
   | "simplify_body" :: toks -> show (ksimplify dyn0 (whole toks) [] true)
   | "erased_agree" :: d :: toks ->          (* instance of ksimplify_refines_simplify *)
       let e = whole toks in string_of_bool (erase (ksexp_simplify (dyn_of d) e) = sexp_simplify (erase e))
+  | "simplifyN" :: d :: toks -> show (ksexp_simplifyN (dyn_of d) (whole toks))    (* exact pass order: a simplified operator that is a lambda gets the let handling *)
+  | "simplify_bodyN" :: toks -> let e = whole toks in show (ksimpN (ksize e) dyn0 e [] true)
+  | "becomes" :: toks ->          (* 1 = some operator only BECAME a lambda: the level-0 model differs *)
+      let e = whole toks in string_of_bool (ksexp_simplifyN dyn0 e <> ksexp_simplify dyn0 e)
+  | "stableN" :: toks ->          (* the level bound suffices: one more level changes nothing; and the kinded and plain models commute with erase *)
+      let e = whole toks in
+      string_of_bool (ksimpN (S (ksize e)) dyn0 e [] false = ksexp_simplifyN dyn0 e
+                      && erase (ksexp_simplifyN dyn0 e) = sexp_simplifyN (erase e))
+  | "run3" :: fuel :: toks ->
+      (match run3 (nat_of_int (int_of_string fuel)) (erase (whole toks)) with
+       | None -> "NONE |"
+       | Some (v, o) ->
+           (match v with None -> "V proc" | Some d -> "V " ^ show_dat d) ^ " |" ^ String.concat "" (List.map (fun d -> " ; " ^ show_dat d) o))
+  | "restflags" :: toks ->        (* every lambda with a rest parameter, in preorder: id:repaired analysis:old analysis *)
+      let rec walk e = match e with
+        | Lam (id, ps, rest, sv, body) ->
+            (if rest then [iz id ^ ":" ^ string_of_bool (rest_unused e) ^ ":" ^ string_of_bool (rest_unused_old e)] else []) @ walk body
+        | SetE (_, _, v) -> walk v
+        | Cnd (t, a, b) -> walk t @ walk a @ walk b
+        | Seq es -> List.concat_map walk es
+        | App (f, args) -> walk f @ List.concat_map walk args
+        | _ -> [] in
+      String.concat " " ("F" :: walk (erase (whole toks)))
   | "run2" :: fuel :: toks ->
       (match run2 (nat_of_int (int_of_string fuel)) (erase (whole toks)) with
        | None -> "NONE |"
